@@ -164,6 +164,9 @@ func loadProject(sc *Scenario, spec *ProjectSpec, tmp, fname string) (*types.Pro
 // the fake clock comes from testing/synctest.
 func RunScenario(t *testing.T, sc *Scenario, tape []int32) *RunResult {
 	zerolog.SetGlobalLevel(zerolog.Disabled)
+	if os.Getenv("VERIF_ZLOG") != "" {
+		zerolog.SetGlobalLevel(zerolog.DebugLevel)
+	}
 	res := &RunResult{}
 	t0 := time.Now()
 	tmp, err := os.MkdirTemp(os.Getenv("VERIF_TMP"), "simrun-")
@@ -218,8 +221,12 @@ func RunScenario(t *testing.T, sc *Scenario, tape []int32) *RunResult {
 		Seed: sc.Seed, Tape: tape, Strategy: sc.Strategy, IterMode: sc.IterMode, IterRot: sc.IterRot,
 		MaxSteps: 60000, Horizon: 3 * time.Hour,
 	}
-	if sc.SweepStep > 0 {
-		cfg.OnStep = func(step int, _ *simsync.Task, _ int) {
+	traceSteps := os.Getenv("VERIF_STEPS") != ""
+	if sc.SweepStep > 0 || traceSteps {
+		cfg.OnStep = func(step int, tk *simsync.Task, nready int) {
+			if traceSteps {
+				fmt.Printf("    step %d -> %v (site %d) ready=%d\n", step, tk, tk.Site, nready)
+			}
 			if step == sc.SweepStep {
 				sweepSem.Post()
 			}
